@@ -4,18 +4,26 @@ import OFCore.Drv.Per
 Line protocol handler for the `add` domain (plain / ADD / DIVIDE requests, C03).
 
 ```
-add <kind> <cfg> <defUnit> <period|none> <mode>      -> <int> | <p/q> | ERR
+add <kind> <cfg> <defUnit> <parg> <mode>      -> <int> | <p/q> | ok | ERR
    kind   i  formula returning `ord(start) mod 9973`  (int variable)
           f  formula returning `ord(start) mod 1009`  (float variable)
+          g  as i, on a group entity
           c  no formula, default value 7
           z  neutralised variable (value 0)
           (an eternal variable's value never depends on the period: 7, or 0 when neutralised)
    cfg    s  values are stored (default configuration)    n  `variables_to_drop` (not stored)
-   period unit/Y,M,D/size, or `none` for a period argument that is not int / str / Period
+          t  trace=True (the model ignores it)
+   parg   unit/Y,M,D/size          a Period object
+          S:unit/Y,M,D/size        the text `str(period)`, parsed back by `periods.period`
+          I:year/Y,1,1/1           the int Y
+          none                     an argument that is not int / str / Period
    mode   plain | add | div                 Simulation.calculate / calculate_add / calculate_divide
+          out:- | out:A | out:D             Simulation.calculate_output, the variable declaring no
+                                            calculate_output / calculate_output_add / _divide
+          chk                               population.check_period_validity
           pop:<opts> | frm:<opts>           population(variable, period, options) called directly /
-                                            from inside a formula (same model)
-   opts   -  (options=None) | e (empty list) | tokens joined by `+`:
+          popt:<opts> | frmt:<opts>         from inside a formula; `t`: options in a tuple (same model)
+   opts   -  (options=None) | e (empty sequence) | tokens joined by `+`:
           A, sA = ADD   D, sD = DIVIDE   anything else = some other option
 ```
 One self-contained case per line. Rationals in lowest terms, `p` when the denominator is 1.
@@ -40,32 +48,43 @@ def parseOpts? (s : String) : Option (Option (List Opt)) :=
     else some (some (toks.map fun t =>
       if t = "A" ∨ t = "sA" then Opt.add else if t = "D" ∨ t = "sD" then Opt.divide else Opt.other))
 
+def parseArg? (s : String) : Option PArg :=
+  if s = "none" then some .invalid
+  else if s.startsWith "S:" then (parsePeriod? (s.drop 2).toString).map fun p => PArg.text p.text
+  else if s.startsWith "I:" then
+    match parsePeriod? (s.drop 2).toString with
+    | some p => if p.unit = .year ∧ p.start.m = 1 ∧ p.start.d = 1 ∧ p.size = 1 ∧ 0 ≤ p.start.y
+        then some (PArg.text (intText p.start.y)) else none
+    | none => none
+  else (parsePeriod? s).map PArg.period
+
 def handleAdd (args : List String) : String :=
   match args with
   | [kind, cfg, du, ps, mode] =>
-    if !(["i", "f", "c", "z"].contains kind) ∨ !(["s", "n"].contains cfg) then "BAD" else
-    match DUnit.ofName du with
-    | none => "BAD"
-    | some u =>
-      let parg : Option (Option Period) := if ps = "none" then some none else (parsePeriod? ps).map some
-      match parg with
-      | none => "BAD"
-      | some parg =>
-        let val := valOf kind u
-        let store := cfg = "s"
-        match mode.splitOn ":" with
-        | ["plain"] => match parg with
-          | some p => showE toString (calcPlain val store u p) | none => "BAD"
-        | ["add"] => match parg with
-          | some p => showE toString (calcAdd val store u p) | none => "BAD"
-        | ["div"] => match parg with
-          | some p => showE showRat' (calcDivide val store u p) | none => "BAD"
-        | [m, os] =>
-          if m ≠ "pop" ∧ m ≠ "frm" then "BAD" else
-          match parseOpts? os with
-          | none => "BAD"
-          | some opts => showE showRat' (callWithOptions val store u parg opts)
+    if !(["i", "f", "g", "c", "z"].contains kind) ∨ !(["s", "n", "t"].contains cfg) then "BAD" else
+    match DUnit.ofName du, parseArg? ps with
+    | some u, some parg =>
+      let val := valOf kind u
+      let store := cfg ≠ "n"
+      match mode.splitOn ":" with
+      | ["plain"] => if ps = "none" then "BAD" else showE toString (calcPlainArg val store u parg)
+      | ["add"] => if ps = "none" then "BAD" else showE toString (calcAddArg val store u parg)
+      | ["div"] => if ps = "none" then "BAD" else showE showRat' (calcDivideArg val store u parg)
+      | ["chk"] => showE (fun _ => "ok") (checkPeriodValidity parg)
+      | ["out", co] =>
+        if ps = "none" then "BAD" else
+        match co with
+        | "-" => showE showRat' (calcOutput val store u none parg)
+        | "A" => showE showRat' (calcOutput val store u (some .add) parg)
+        | "D" => showE showRat' (calcOutput val store u (some .divide) parg)
         | _ => "BAD"
+      | [m, os] =>
+        if !(["pop", "frm", "popt", "frmt"].contains m) then "BAD" else
+        match parseOpts? os with
+        | none => "BAD"
+        | some opts => showE showRat' (callWithArg val store u parg opts)
+      | _ => "BAD"
+    | _, _ => "BAD"
   | _ => "BAD"
 
 end OFCore.Drv
